@@ -160,7 +160,8 @@ Definition run (c : case) : sx :=
   | CRange n => run_range n
   | CLink q => SB (sx_eqb (obs_map_run q) (obs_map_run_sel q)
                   (* and the order conditions of the link theorem hold for the request *)
-                  && (negb (request_ok (q_funcs q) (q_inputs q)) || pipeline_order_ok (q_funcs q)))
+                  && (negb (request_ok (q_funcs q) (q_inputs q))
+                      || (pipeline_order_ok (q_funcs q) && consistent_axesb (arrayspecs (q_funcs q)))))
   end.
 
 (* ------------------------------------------------------------------ the executable statement *)
